@@ -25,25 +25,26 @@ type Clause struct {
 }
 
 type FnSpec struct {
-	Target     string
-	Fn         *ssa.Function
-	Requires   []*Clause
-	Ensures    []*Clause
-	Invariants map[int][]*Clause
-	Decreases  map[int]*Clause
-	Assigns    []string
-	HasAssigns bool
-	Trusted    bool
-	Inline     bool
-	Lemma      bool
-	Safe       []string // property labels under which implicit obligations are checked
-	Unroll     map[int]int
-	AtCall     map[string][]*Clause // call-site assertions: callee name -> clauses evaluated just before the call
-	Thorough   bool                 // checked only in the thorough tier
-	Bounded    int                  // >0: bounded stand-in (lemma with callees inlined, loops unrolled to this bound)
-	PanicsIff  *Clause
-	Fresh      []string // results that are freshly allocated
-	Pos        string
+	Target         string
+	Fn             *ssa.Function
+	Requires       []*Clause
+	Ensures        []*Clause
+	Invariants     map[int][]*Clause
+	Decreases      map[int]*Clause
+	Assigns        []string
+	HasAssigns     bool
+	Trusted        bool
+	Inline         bool
+	Lemma          bool
+	Safe           []string // property labels under which implicit obligations are checked
+	Unroll         map[int]int
+	AtCall         map[string][]*Clause // call-site assertions: callee name -> clauses evaluated just before the call
+	PureFuncValues bool                 // calls through function-typed fields are assumed side-effect free (user handlers)
+	Thorough       bool                 // checked only in the thorough tier
+	Bounded        int                  // >0: bounded stand-in (lemma with callees inlined, loops unrolled to this bound)
+	PanicsIff      *Clause
+	Fresh          []string // results that are freshly allocated
+	Pos            string
 }
 
 func (s *FnSpec) hasContract() bool {
@@ -303,6 +304,13 @@ func (c *Contracts) parseFile(prog *ssa.Program, p *packages.Package, sp *ssa.Pa
 						s.AtCall = map[string][]*Clause{}
 					}
 					s.AtCall[fs[2]] = append(s.AtCall[fs[2]], cl)
+				}
+			case "assume-pure-handlers":
+				if !need(2) {
+					continue
+				}
+				if s := c.spec(sp, fs[1], pos); s != nil {
+					s.PureFuncValues = true
 				}
 			case "thorough":
 				if !need(2) {
